@@ -100,6 +100,7 @@ func runC11(r *Report, p *Program) {
 		r.Unresolve("R2L", "no lock acquisition found in the setup scope (basicauth's htpasswd cache lock expected)")
 	}
 	c11R6(h)
+	c11R7(h)
 	// R3: validate and start agree
 	r.Rule("R3", "validate and start agree (E10 traces of executeDirectives, validating and not): the same setup calls are made in the same order, and justValidate only switches the parsing callbacks off; casketmain's -validate path and Start both go through ValidateAndExecuteDirectives", 3)
 	{
